@@ -3,10 +3,13 @@ from orchestrate.common import run_check
 
 
 def _extra(lines, verdicts):
-    faults, classes, tmax, inflight, conns = {}, {}, 0, {}, 0
+    faults, classes, tmax, inflight, conns, skipped = {}, {}, 0, {}, 0, 0
     for ln in lines:
         try:
             case, obs = ln.split("|", 1)
+            if obs.strip().startswith("skip"):
+                skipped += 1
+                continue
             f = case.split()
             fk = re.sub(r"(?<=garb).*|(?<=ver).*", "", f[5])
             faults[fk] = faults.get(fk, 0) + 1
@@ -21,7 +24,18 @@ def _extra(lines, verdicts):
         except Exception:
             pass
     return {"fault_kinds": faults, "requests_in_flight": inflight, "client_outcome_classes": classes,
-            "max_completion_ms": tmax, "connection_traces_replayed_through_model": conns}
+            "max_completion_ms": tmax, "connection_traces_replayed_through_model": conns,
+            "cases_skipped_because_setup_failed_5_times": skipped}
+
+
+def _post(lines, verdicts):
+    # a case whose set-up (mock cluster, session creation, prepare) failed five times in a row is
+    # skipped (environment, e.g. no free port); if that happens to more than a fifth of the cases the
+    # implementation can apparently no longer connect at all: report it
+    sk = [ln for ln in lines if ln.split("|", 1)[-1].strip().startswith("skip")]
+    if lines and len(sk) * 5 > len(lines):
+        return [("diff", sk[0], f"diff {len(sk)} of {len(lines)} cases could not be set up")]
+    return []
 
 
 SPEC = {
@@ -39,6 +53,7 @@ SPEC = {
              "non-trivial = fault != none; distinct = distinct case lines"),
     "nontrivial": lambda ln: " none " not in ln.split("|")[0],
     "extra_coverage": _extra,
+    "post": _post,
     "trusted_base": [
         "mocknode (harness/src/mocknode): own CQL v4 frame codec, records every byte it wrote and every frame it read per connection",
         "runner harness/src/bin/c10.rs: maps mocknode's trace to the connection-model alphabet; completion bound 20.4 s (keepalive interval + timeout + 20 s margin), typical completion < 0.5 s",
